@@ -171,8 +171,45 @@ def _accesses(cf, fn_node, bind):
         yield node, g, mode, content
 
 
+def pointer_aliases(cf):
+    """Fail closed on what no rule here tracks: a file-scope buffer pointer copied into another pointer variable that survives the
+    normalisation (a running pointer `float *out = zp; *out++ = ..`).  Accesses through such an alias are invisible to the
+    per-buffer analyses (overwrite-before-read, bounds), so their verdicts would be unfounded."""
+    gl = {g["name"] for g in cf.globals if "*" in g.get("type", {}).get("qualType", "")}
+
+    def bare(r):
+        stack = [r]
+        while stack:
+            x = stack.pop()
+            if not isinstance(x, dict):
+                continue
+            k = x.get("kind")
+            if k in ("ArraySubscriptExpr", "CallExpr") or (k == "UnaryOperator" and x.get("opcode") in ("*", "!")) or \
+                    (k == "BinaryOperator" and x.get("opcode") in ("==", "!=", "<", ">", "<=", ">=")):
+                continue
+            if k == "DeclRefExpr" and x.get("referencedDecl", {}).get("name") in gl and x["referencedDecl"].get("kind") == "VarDecl":
+                return x["referencedDecl"]["name"]
+            stack.extend(x.get("inner") or [])
+        return None
+    for fname, fn in cf.funcs.items():
+        for n in cf.walk(fn):
+            tgt = rhs = None
+            if n.get("kind") == "VarDecl" and n.get("init") and n.get("inner") and "*" in n.get("type", {}).get("qualType", ""):
+                tgt, rhs = n.get("name"), n["inner"][-1]
+            elif n.get("kind") == "BinaryOperator" and n.get("opcode") == "=" and "*" in n.get("type", {}).get("qualType", ""):
+                l = ex(n["inner"][0])
+                if l[0] == "var" and l[1] not in gl:
+                    tgt, rhs = l[1], n["inner"][1]
+            if tgt is not None:
+                g = bare(rhs)
+                if g is not None:
+                    raise AnalysisError(f"{fname}: work buffer '{g}' is aliased by the pointer variable '{tgt}' (line {cf.line(n)}); accesses "
+                                        "through a running pointer are not tracked by the buffer analyses")
+
+
 def statics(repo, rep, rule):
     cf = core(repo)
+    pointer_aliases(cf)
     names = _global_names(cf)
     rep.analysed["c_file_scope_objects"] = names
     rep.floor(rule, "file-scope objects in specpart.c", len(names), 5)
@@ -555,9 +592,9 @@ def double_buffer(repo, rep, rule):
                     if is_assign(m):
                         a, b = ex(m["inner"][0]), ex(m["inner"][1])
                         if a[0] == "idx" and b[0] == "idx" and a[2] == b[2] and a[2][0] == "var":
-                            if a[1] == ("var", X) and b[1] == ("var", Y) and cf.line(m) < cf.line(n):
+                            if a[1] == ("var", X) and b[1] == ("var", Y) and cf.pb(m) < cf.pb(n):
                                 copies_in = True
-                            if a[1] == ("var", Y) and b[1] == ("var", X) and cf.line(m) > cf.line(n):
+                            if a[1] == ("var", Y) and b[1] == ("var", X) and cf.pb(m) > cf.pb(n):
                                 copies_out = True
             if X != Y and copies_in and copies_out:
                 rep.ok(rule, f"{SPECPART_C}:{cf.line(n)} pt_fld", cf.text(n)[:60], f"labels read from {Y}, written to the snapshot {X}; copies before and after the sweep")
@@ -736,7 +773,7 @@ def immersion_decisions(repo, rep, rule):
             cl = counted_loop(cf, n)
             if cl is not None and cl[2][0] == "idx" and cl[2][1] == ("var", "neigh"):
                 loops.append((n, cl))
-    loops.sort(key=lambda x: cf.line(x[0]))
+    loops.sort(key=lambda x: cf.pb(x[0]))
     if len(loops) != 4:
         raise AnalysisError(f"pt_fld: expected 4 loops over a bin's neighbours (1a, 1b, 1c, 2), found {len(loops)}")
 
